@@ -31,6 +31,7 @@ type built struct {
 	anyAlt  *zapcore.Field // a second typed constructor that corresponds equally well (either accepted)
 	desc    string
 	noRefl  bool // payload not equal to itself under the documented comparison (excluded from reflexivity only)
+	after   func() string // optional extra judgement after AddTo ("" = fine)
 	boundry bool
 }
 
@@ -81,7 +82,14 @@ func slice[T any](name string, ctor func(string, []T) zapcore.Field, genv func(*
 			sub = append(sub, rec.Call{Kind: kind, Val: conv(v)})
 		}
 		cp := clone(vs)
+		before := fmt.Sprintf("%#v", vs)
 		b := built{f: ctor(key, vs), again: func() zapcore.Field { return ctor(key, cp) }, want: []rec.Call{{Kind: "array", Key: key, Sub: sub}}, desc: fmt.Sprintf("%s(%q, %v)", name, key, any(vs))}
+		b.after = func() string {
+			if now := fmt.Sprintf("%#v", vs); now != before {
+				return "the constructor (or encoding the field) modified the caller's slice"
+			}
+			return ""
+		}
 		if anyable {
 			a := zap.Any(key, vs)
 			b.anyF = &a
@@ -125,7 +133,15 @@ func (o om) MarshalLogObject(e zapcore.ObjectEncoder) error { e.AddString(o.k, "
 
 type omv struct{ K string }
 
-func (o *omv) MarshalLogObject(e zapcore.ObjectEncoder) error { e.AddString(o.K, "pv"); return nil }
+// omvSeen records the receivers the pointer marshaler was called on: ObjectValues is documented
+// to marshal "pointers to these objects", i.e. to the caller's own elements.
+var omvSeen []*omv
+
+func (o *omv) MarshalLogObject(e zapcore.ObjectEncoder) error {
+	omvSeen = append(omvSeen, o)
+	e.AddString(o.K, "pv")
+	return nil
+}
 
 type am struct{ n int }
 
@@ -286,8 +302,17 @@ func rows() []row {
 				es[i] = errors.New(g.Str())
 				sub = append(sub, rec.Call{Kind: "object", Sub: call("str", "error", es[i].Error())})
 			}
+			orig := clone(es)
 			a := zap.Any(key, es)
-			return built{f: zap.Errors(key, es), again: func() zapcore.Field { return zap.Errors(key, clone(es)) }, want: []rec.Call{{Kind: "array", Key: key, Sub: sub}}, anyF: &a, desc: fmt.Sprintf("Errors(%q,%d)", key, n)}
+			return built{f: zap.Errors(key, es), again: func() zapcore.Field { return zap.Errors(key, clone(orig)) }, want: []rec.Call{{Kind: "array", Key: key, Sub: sub}}, anyF: &a, desc: fmt.Sprintf("Errors(%q,%d)", key, n),
+				after: func() string {
+					for i := range orig {
+						if es[i] != orig[i] {
+							return fmt.Sprintf("the constructor (or encoding the field) modified the caller's slice: element %d changed", i)
+						}
+					}
+					return ""
+				}}
 		}},
 		{"Object", func(g *gen.G, key string) built {
 			if g.R.P(1, 3) {
@@ -350,7 +375,20 @@ func rows() []row {
 				os[i] = omv{g.Key()}
 				sub = append(sub, rec.Call{Kind: "object", Sub: call("str", os[i].K, "pv")})
 			}
-			return built{f: zap.ObjectValues[omv, *omv](key, os), again: func() zapcore.Field { return zap.ObjectValues[omv, *omv](key, clone(os)) }, want: []rec.Call{{Kind: "array", Key: key, Sub: sub}}, desc: "ObjectValues"}
+			return built{f: zap.ObjectValues[omv, *omv](key, os), again: func() zapcore.Field { return zap.ObjectValues[omv, *omv](key, clone(os)) }, want: []rec.Call{{Kind: "array", Key: key, Sub: sub}}, desc: "ObjectValues",
+				after: func() string {
+					seen := omvSeen
+					omvSeen = nil
+					if len(seen) < len(os) {
+						return fmt.Sprintf("the pointer marshaler ran %d times for %d elements", len(seen), len(os))
+					}
+					for i := range os {
+						if seen[i] != &os[i] {
+							return fmt.Sprintf("element %d was marshaled through a pointer to a copy, not through a pointer to the caller's element", i)
+						}
+					}
+					return ""
+				}}
 		}},
 		{"Stringers", func(g *gen.G, key string) built {
 			n := g.R.Intn(4)
@@ -582,6 +620,12 @@ func Run(r *ev.Run) {
 			if d := rec.SameCalls(b.want, got); d != "" {
 				r.Violate(ev.Violation{Case: id, Class: "value-changed:" + rw.name, Msg: fmt.Sprintf("%s: the encoder did not receive the value given: %s", b.desc, d), Witness: b.desc})
 				continue
+			}
+			if b.after != nil {
+				if m := b.after(); m != "" {
+					r.Violate(ev.Violation{Case: id, Class: "input-not-original:" + rw.name, Msg: b.desc + ": " + m, Witness: b.desc})
+					continue
+				}
 			}
 			if b.anyF != nil {
 				r.Count("any_comparisons", 1)
